@@ -305,8 +305,9 @@ mod sync_impl {
         let sub = "conc";
         verif::set_pre_acquire(Some(Box::new(pre_acquire)));
         let tsan = ctx.extra.contains_key("tsan");
-        let cases = if tsan { ctx.n(40, 400) } else { ctx.n(480, 8_000) };
-        let nq = if tsan { 120 } else { 400 };
+        let miri = ctx.extra.contains_key("miri");
+        let cases = if miri { 1 } else if tsan { ctx.n(40, 400) } else { ctx.n(480, 8_000) };
+        let nq = if miri { 3 } else if tsan { 120 } else { 400 };
         for idx in 0..cases {
             if ctx.stop() {
                 break;
@@ -319,7 +320,18 @@ mod sync_impl {
             let delay_mode = (idx / 3 + idx) % 3;
             DELAY_SEED.store(seed ^ idx, Ordering::Relaxed);
             DELAY_MODE.store(delay_mode, Ordering::Relaxed);
-            let (rules, qs, optimize, policy) = case_material(seed ^ 0xC19, idx, nq);
+            let (mut rules, mut qs, optimize, policy) = case_material(seed ^ 0xC19, idx, nq);
+            let mut nthreads = nthreads;
+            if miri {
+                // the interpreter needs seconds per regex compilation: tiny engine, 2 threads, 3 queries
+                rules = vec!["/ab*c^".to_string(), "||ads.net^".to_string(), "example.com##.ad".to_string()];
+                qs = vec![
+                    Q::Net("https://x.com/ab1c/".into(), "https://o.org/".into(), "script"),
+                    Q::Net("https://ads.net/".into(), "https://o.org/".into(), "image"),
+                    Q::Cos("https://example.com/".into()),
+                ];
+                nthreads = 2;
+            }
             // sequential reference on the same engine (single thread; a re-entrant lock on any
             // query path would hang right here and be reported by the driver's replay)
             let built = guarded(|| {
@@ -396,7 +408,7 @@ mod sync_impl {
             ctx.obs("events_dropped_over_cap", dropped as i64);
             ctx.obs(&format!("batches_with_{}_threads", nthreads), 1);
             ctx.obs_max("max_batch_wall_ms", started.elapsed().as_millis() as i64);
-            let interleaved = tsan || (switches >= 2 * nthreads && distinct_threads.len() == nthreads);
+            let interleaved = tsan || miri || (switches >= 2 * nthreads && distinct_threads.len() == nthreads);
             if interleaved {
                 ctx.nontrivial(order_digest);
                 ctx.obs("batches_interleaved", 1);
